@@ -91,7 +91,7 @@ class FreeCheck:
         s.N = params.get('N', 4)
         s.alphabet = params.get('alphabet', ALPHA_C05)
         s.max_empty = params.get('max_empty', 1)
-        s.step_limit = params.get('step_limit', 80_000)
+        s.step_limit = params.get('step_limit', 40_000)
         s.script = params.get('script')
 
     def body(s):
